@@ -82,6 +82,44 @@ def step_counter_bounds_library_code():
     assert out == "return" and n3 == n, (n, n3)              # deterministic count
 
 
+@test
+def fake_sctp_socket_semantics():
+    """The stand-in for pysctp's one-to-one socket: a blocking connect() returns once the peer accepts and raises
+    ConnectionRefusedError when it refuses; get_status() tells established from closed; bytes pass both ways."""
+    from vk.vrt import fakenet, sched, shims
+    out = {}
+    for answer in ("accept", "refuse"):
+        rt = sched.Runtime(max_points=2000, horizon=60.0)
+        rt.net = fakenet.Net()
+        shims.set_runtime(rt)
+
+        def driver(answer=answer, rt=rt):
+            peer = fakenet.PeerEnd(rt)
+
+            def peer_side():
+                peer.wait_connect()
+                (peer.accept if answer == "accept" else peer.refuse)()
+            shims.Thread(target=peer_side, name="peer").start()
+            s = fakenet.FakeSctpSocket()
+            try:
+                s.connect(("127.0.0.2", 3869))
+                st = s.get_status()
+                s.setblocking(False)
+                peer.send(b"abc")
+                got = s.sctp_recv(100)[2]
+                sent = s.sctp_send(b"xyz")
+                out[answer] = (st.state == st.state_ESTABLISHED, got, sent, peer.received())
+            except ConnectionRefusedError:
+                out[answer] = ("refused", s.get_status().state == fakenet.SctpStatus.state_CLOSED)
+            rt.stop()
+        try:
+            rt.run(driver, real_timeout=30)
+        finally:
+            shims.set_runtime(None)
+    assert out["accept"] == (True, b"abc", 3, b"xyz"), out
+    assert out["refuse"] == ("refused", True), out
+
+
 def main():
     failed = 0
     for t in TESTS:
